@@ -26,7 +26,7 @@ Definition iq_schema : list afield := [
   mkfield FID (hex "") (hex "6964") false KString;
   mkfield FTo (hex "") (hex "746f") true KJid;
   mkfield FFrom (hex "") (hex "66726f6d") true KJid;
-  mkfield FLang (hex "") (hex "6c616e67") true KString;
+  mkfield FLang (hex "687474703a2f2f7777772e77332e6f72672f584d4c2f313939382f6e616d657370616365") (hex "6c616e67") true KString;
   mkfield FType (hex "") (hex "74797065") false KIQType].
 
 Definition message_tag_space : bytes := (hex "").
